@@ -154,6 +154,7 @@ class TxRef:
         self.latlon = latlon
         self.committed = {"nodes": {}, "edges": [], "nidx": set(), "eidx": set(), "links": []}
         self.pending = []      # list of (kind, payload)
+        self.record = None     # when a list: every committed state reached is appended (commit points)
 
     def _apply(self, state, kind, payload):
         if kind == "node":
@@ -181,6 +182,9 @@ class TxRef:
         for k, p in self.pending:
             self._apply(self.committed, k, p)
         self.pending = []
+        if self.record is not None:
+            import copy
+            self.record.append(copy.deepcopy(self.committed))
 
     def rollback(self):
         self.pending = []
@@ -371,6 +375,15 @@ class StoreSession:
             raise ValueError(k)
 
 
+def _store_shape(sess):
+    """Digest of the final store state of the reference (content, index and transaction state)."""
+    import zlib
+    st = sess.ref.view()
+    return zlib.crc32(repr((len(st["nodes"]), len(st["edges"]), len(st["nidx"]), len(st["eidx"]), len(sess.ref.pending),
+                            sess.latlon, sess.stats.get("fired_restart", 0), sess.stats.get("fired_crash", 0),
+                            sess.stats.get("fired_crash_mid_operation", 0))).encode())
+
+
 def sorted_rows(rows):
     return sorted(rows, key=repr)
 
@@ -537,6 +550,79 @@ def _reopen(sess, crash=False):
     sess.sq = SqliteMap.from_file(fn)
 
 
+class MidCrash:
+    """Crash point INSIDE an operation: when the k-th SQL statement of the operation starts, the database
+    files are copied as they are on disk at that instant (the connection may be in the middle of a
+    transaction)."""
+
+    def __init__(self, sess, k):
+        self.sess, self.k, self.n, self.dir = sess, k, 0, None
+
+    def __call__(self, stmt):
+        if self.dir is None and self.n == self.k:
+            self.sess.gen_no += 1
+            d2 = os.path.join(self.sess.scratch, "mid%d" % self.sess.gen_no)
+            os.makedirs(d2)
+            fn = os.path.join(self.sess.scratch, "store.sqlite")
+            for suffix in ("", "-journal", "-wal", "-shm"):
+                if os.path.exists(fn + suffix):
+                    shutil.copy(fn + suffix, os.path.join(d2, "store.sqlite" + suffix))
+                    if suffix == "-journal":
+                        self.sess.bump("probe_hot_journal_mid_operation")
+            self.dir = d2
+            self.stmt = stmt.split()[0] if stmt.split() else "?"
+        self.n += 1
+
+
+def store_state(m):
+    """(nodes, edges, node index, edge index) of a SqliteMap, order independent."""
+    labels = sorted(m.labels())
+    nodes = sorted((l, tuple(float(v) for v in m.node_coordinates(l))) for l in labels)
+    edges = sorted((l, x[0]) for l in labels for x in m.nodes_nbrto(l))
+    nidx = sorted(l for l, _ in m.all_nodes())
+    eidx = sorted((a, b) for a, _, b, _ in m.all_edges())
+    return nodes, edges, nidx, eidx
+
+
+def model_state(st):
+    nodes = sorted((l, (float(p[0]), float(p[1]))) for l, p in st["nodes"].items())
+    edges = sorted((a, b) for a, b in st["edges"] if a in st["nodes"] and b in st["nodes"])
+    nidx = sorted(st["nidx"] & set(st["nodes"]))
+    eidx = sorted(e for e in st["eidx"] if e in set(tuple(x) for x in st["edges"]))
+    return nodes, edges, nidx, eidx
+
+
+def check_midcrash(sess, i, op, mc, commit_points):
+    """The crash image must show exactly one of the committed states (commit points) that existed between
+    the start of the operation and its end; un-acknowledged writes may be absent, never half present."""
+    vs = []
+    if mc.dir is None:
+        return vs
+    sess.bump("fired_crash_mid_operation")
+    try:
+        m = SqliteMap.from_file(os.path.join(mc.dir, "store.sqlite"))
+    except Exception as exc:
+        return [V("C18/sqlite/mid-operation-crash/cannot-open/%s" % type(exc).__name__, str(exc)[:200], i)]
+    try:
+        got = store_state(m)
+    except Exception as exc:
+        vs.append(V("C18/sqlite/mid-operation-crash/cannot-read/%s" % type(exc).__name__, str(exc)[:200], i))
+        got = None
+    finally:
+        m.db.close()
+    if got is not None:
+        cands = [model_state(c) for c in commit_points]
+        if got not in cands:
+            what = [k for k, (g, c) in zip(("nodes", "edges", "node-index", "edge-index"), zip(got, cands[-1])) if g != c]
+            vs.append(V("C18/sqlite/mid-operation-crash/not-a-commit-point/%s" % op["op"],
+                        "statement %d (%s) of %s: differs from the last commit point in %s; got nodes=%d edges=%d nidx=%d eidx=%d" % (
+                            mc.k, getattr(mc, "stmt", "?"), op["op"], what, len(got[0]), len(got[1]), len(got[2]), len(got[3])), i))
+        elif len(commit_points) > 1 and got == cands[-1] and got != cands[0]:
+            sess.bump("probe_mid_crash_after_inner_commit")
+    shutil.rmtree(mc.dir, ignore_errors=True)
+    return vs
+
+
 def eval_C11(doc):
     sess = StoreSession(doc, use_sqlite=True, use_inmem=True)
     clock = SimClock(doc.get("clock"))
@@ -567,7 +653,8 @@ def eval_C11(doc):
     st = dict(sess.stats)
     st["ops"] = len(doc["ops"])
     st["clock_reads"] = clock.reads
-    return {"violations": sess.vs, "sig": sig, "nontrivial": sess.mutations > 0, "stats": st}
+    return {"violations": sess.vs, "sig": sig, "nontrivial": sess.mutations > 0, "stats": st,
+            "shape": _store_shape(sess)}
 
 
 # ----------------------------------------------------------------------------- C12
@@ -706,6 +793,12 @@ def eval_C12(doc):
                     trace = gen.gen_trace(rng, world)
                 mdoc = {"kind": "A", "world": world, "trace": trace, "cfg": doc["cfg"],
                         "ops": [{"op": "match", "k": len(trace), "unique": False}], "faults": {}, "log": "ERROR"}
+                if rng.random() < 0.35:
+                    # the stored map is closed and opened again (pickle / SQLite file) before the final match
+                    mdoc["ops"] = [{"op": "match", "k": max(1, len(trace) // 2), "unique": False},
+                                   {"op": "match", "k": len(trace), "unique": False}]
+                    mdoc["faults"] = {"restart_before": [1]}
+                    sess.bump("fired_restart_before_match")
                 d1 = clone(mdoc)
                 d1["backend"] = "inmem_api"
                 d2 = clone(mdoc)
@@ -736,7 +829,8 @@ def eval_C12(doc):
     st = dict(sess.stats)
     st["ops"] = len(doc["ops"])
     st["clock_reads"] = clock.reads
-    return {"violations": sess.vs, "sig": sig, "nontrivial": sess.mutations > 0, "stats": st}
+    return {"violations": sess.vs, "sig": sig, "nontrivial": sess.mutations > 0, "stats": st,
+            "shape": _store_shape(sess)}
 
 
 # ----------------------------------------------------------------------------- C18
@@ -748,6 +842,12 @@ def gen_C18(rng, tier):
                                          safe_commit_p=0.8)
     if kind == "pickle":
         ops = [o for o in ops if o["op"] != "crash"]
+    else:
+        # crash points inside operations: at the k-th SQL statement the operation issues
+        build = [o for o in ops if o["op"] in ("add_node", "add_nodes", "add_edge", "add_edges", "reindex_nodes",
+                                               "reindex_edges", "commit", "connect_parallelroads")]
+        for o in rng.sample(build, min(len(build), rng.randint(0, 3))):
+            o["midcrash"] = rng.randrange(0, 10)
     battery = [gen_query(rng, rng.choice(["nodes", "edges"]), pts, latlon, mag) for _ in range(4)]
     d = {"kind": "B", "store": kind, "latlon": latlon, "mag": mag, "ops": ops, "battery": battery}
     if rng.random() < 0.3:
@@ -907,7 +1007,18 @@ def eval_C18(doc):
                 elif k.startswith("q_"):
                     pass
                 else:
-                    if not sess.apply_checked(i, op, "C18"):
+                    mc = None
+                    if "midcrash" in op:
+                        import copy
+                        mc = MidCrash(sess, op["midcrash"])
+                        sess.ref.record = [copy.deepcopy(sess.ref.committed)]
+                        sess.sq.db.set_trace_callback(mc)
+                    ok = sess.apply_checked(i, op, "C18")
+                    if mc is not None:
+                        sess.sq.db.set_trace_callback(None)
+                        points, sess.ref.record = sess.ref.record, None
+                        vs.extend(check_midcrash(sess, i, op, mc, points))
+                    if not ok:
                         break
     finally:
         sess.close()
@@ -917,4 +1028,5 @@ def eval_C18(doc):
     sig = "|".join(["sqlite", str(latlon), doc["mag"], "".join(o["op"][0] + o["op"][-1] for o in doc["ops"])[:40]])
     stats["ops"] = len(doc["ops"])
     stats["clock_reads"] = clock.reads
-    return {"violations": vs, "sig": sig, "nontrivial": sess.mutations > 0, "stats": stats}
+    return {"violations": vs, "sig": sig, "nontrivial": sess.mutations > 0, "stats": stats,
+            "shape": _store_shape(sess)}
